@@ -94,7 +94,7 @@ type c06Base struct {
 }
 
 // number of TGs, after which TG (1-based) a checkpoint is taken (0 = none)
-var c06BaseSpecs = []struct{ ntg, ckpt, rows int }{{3, 0, 1}, {3, 1, 2}, {4, 2, 1}, {2, 0, 3}, {5, 3, 1}, {1, 0, 1}}
+var c06BaseSpecs = []struct{ ntg, ckpt, rows int }{{3, 0, 1}, {3, 1, 2}, {3, 2, 1}, {2, 0, 3}, {4, 3, 1}, {1, 0, 1}}
 
 var c06Bases = map[int]*c06Base{}
 var c06Pipe *executor.TransactionPipe
@@ -210,6 +210,10 @@ func c06Apply(base *c06Base, muts []c06Mut) []byte {
 		switch m.Op {
 		case "trunc":
 			b = b[:clampOff(m.Off)]
+		case "truncrec": // cut the file at the start of record A
+			if r, ok := rec(m.A); ok && r.Off > 0 {
+				b = b[:r.Off]
+			}
 		case "flip":
 			if len(b) > 0 {
 				b[clampOff(m.Off)%len(b)] ^= 1 << uint(m.Val&7)
@@ -800,6 +804,8 @@ func c06Gen(r *rng.Rand, i int, tier string) interface{} {
 	}
 	one := func() c06Mut {
 		switch k := r.Intn(100); {
+		case k < 6:
+			return c06Mut{Op: "truncrec", A: 1 + r.Intn(nrec)}
 		case k < 22:
 			return c06Mut{Op: "trunc", Off: off()}
 		case k < 34:
@@ -843,7 +849,7 @@ func c06Gen(r *rng.Rand, i int, tier string) interface{} {
 			return c06Mut{Op: "setlen", A: r.Intn(8), Val: v.v, Len: v.rel}
 		case k < 94:
 			m := c06Mut{Op: "craft", A: 1 + r.Intn(nrec+1), B: r.Intn(8), Val: int64(1 + r.Intn(4)), Len: r.Intn(50)}
-			if r.Chance(12) {
+			if tier == "thorough" && r.Chance(12) { // quick: the two 2^15 / 2^16 bodies of corpus/C06/big_tg_*.json only
 				m.Val = 5
 			}
 			if r.Chance(25) {
